@@ -457,6 +457,74 @@ pub fn run(args: &Args, mon: &mut Mon) -> (String, Vec<&'static str>) {
             exercise_fragment(&body[..cut], m, "l4-truncation");
             cut += step;
         }
+        // an SCMP message quoting a *well-formed* SCION packet (UDP / SCMP / other inside), cut at
+        // every byte: accessors that look into the quote (dst_port) must stay inside the view
+        {
+            let inner_next = *r.pick(&[17u8, 17, 202, 6]);
+            let n_in = *r.pick(&[0usize, 1, 7, 8, 9, 20]);
+            let mut inner_payload = r.bytes(n_in);
+            if inner_next == 17 && inner_payload.len() >= 6 {
+                let l = inner_payload.len() as u16;
+                inner_payload[4..6].copy_from_slice(&l.to_be_bytes());
+            }
+            let nh = 1 + r.u8() % 3;
+            let ipath = if r.bool() { RPath::Empty } else { RPath::Standard(crate::c12::gen_path(&mut r, [nh, 0, 0], 0, 0, false)) };
+            let (dl, sl) = (*r.pick(&[0u8, 3]), *r.pick(&[0u8, 3]));
+            let mut q = RPacket {
+                version: 0,
+                traffic_class: r.u8(),
+                flow_id: r.u32() & 0xfffff,
+                next_hdr: inner_next,
+                hdr_len_units: 0,
+                payload_len: 0,
+                path_type: if matches!(ipath, RPath::Empty) { 0 } else { 1 },
+                dt: 0,
+                dl,
+                st: 0,
+                sl,
+                rsv: 0,
+                dst_ia: r.u64(),
+                src_ia: r.u64(),
+                dst_host: r.bytes(4 * (dl as usize + 1)),
+                src_host: r.bytes(4 * (sl as usize + 1)),
+                path: ipath,
+                payload: inner_payload.clone(),
+                trailing: 0,
+            };
+            q.fix_lengths();
+            // the quoted header may announce more payload than the quote still holds
+            if r.chance(1, 3) {
+                q.payload_len = *r.pick(&[8u16, 9, 64, 65535]);
+            }
+            let quoted = q.encode();
+            let qhl = q.header_len();
+            let (typ, info_len) = *r.pick(&[(1u8, 4usize), (2, 4), (4, 4), (5, 16), (6, 24)]);
+            let mut body = vec![typ, r.u8() & 3, r.u8(), r.u8()];
+            body.extend(r.bytes(info_len));
+            let fixed = body.len();
+            body.extend_from_slice(&quoted);
+            let mut cut = if miri { fixed + qhl.saturating_sub(2) } else { 0 };
+            while cut <= body.len() {
+                let frag = &body[..cut];
+                exercise_fragment(frag, m, "scmp-quoting-packet");
+                m.count("scmp_quote_truncations");
+                // functional oracle for the look into the quote: a port can only come from bytes
+                // that are there
+                let exact: Box<[u8]> = frag.to_vec().into_boxed_slice();
+                if let Ok(Ok((v, _))) = catch(|| ScmpPayloadView::try_from_slice(&exact).map(|(v, rest)| (v.dst_port(), rest.len()))) {
+                    let have = cut.saturating_sub(fixed + qhl);
+                    if inner_next == 17 && cut >= fixed + qhl {
+                        match v {
+                            Some(_) if have < 2 => m.violation("scmp-dst-port-read-outside-the-view", format!("SCMP type {typ}: quoted UDP header has {have} bytes, dst_port() = {v:?}"), json!({"fragment": hex(frag), "family": "scmp-quoting-packet"})),
+                            Some(p) if p != u16::from_be_bytes([frag[fixed + qhl], frag[fixed + qhl + 1]]) => m.violation("scmp-dst-port-wrong", format!("SCMP type {typ}: dst_port() = {p}"), json!({"fragment": hex(frag), "family": "scmp-quoting-packet"})),
+                            Some(_) => m.count("scmp_quote_port_read"),
+                            None => {}
+                        }
+                    }
+                }
+                cut += 1;
+            }
+        }
         // standalone path with random meta
         let seg = [r.u8() & 63, if r.bool() { 0 } else { r.u8() & 63 }, if r.bool() { 0 } else { r.u8() & 63 }];
         let seg = if miri { [seg[0] % 4, seg[1] % 4, seg[2] % 4] } else { seg };
